@@ -97,7 +97,28 @@ def recheck():
     print("   recheck %s caught_by=%s" % (name, caught))
 
 
+def recheck_all():
+    """recheck-all: every kept change against the check of its own property (regression of the machinery)"""
+    names = sorted(os.listdir(os.path.join(VERIF, "seeded")))
+    lost = []
+    for name in names:
+        dest = os.path.join(VERIF, "seeded", name)
+        meta = json.load(open(os.path.join(dest, "meta.json")))
+        pid = meta.get("property") or name[:3]
+        ids = [pid] if pid in (meta.get("caught_by") or [pid]) else list(meta.get("caught_by") or [pid])[:1]
+        results = run_checks(os.path.join(dest, "patch.diff"), ids)
+        caught = [p for p, r in results.items() if r["exit"] != 0]
+        meta["regression"] = {"checks_run": results, "caught_by": caught}
+        json.dump(meta, open(os.path.join(dest, "meta.json"), "w"), indent=1)
+        if not caught:
+            lost.append(name)
+        print("   %s %s caught_by=%s" % (name, ids, caught), flush=True)
+    print("LOST:", lost)
+
+
 def main():
+    if len(sys.argv) >= 2 and sys.argv[1] == "recheck-all":
+        return recheck_all()
     if len(sys.argv) >= 4 and sys.argv[1] == "recheck":
         return recheck()
     if len(sys.argv) < 5 or sys.argv[1] != "eval":
